@@ -24,7 +24,8 @@ RULE = ("message sets are produced by really running ProgGen programs (remote su
         "different orders of one subset are equal; (d) parse_stream yields completed tasks during the stream and incomplete ones "
         "once at the end. A third of the programs run with a second, failing destination and/or raising exception extractors, so the tasks "
         "contain eliot:destination_failure reports and extractor tracebacks; one case in 40 has an action with 250-400 direct children, one in 40 a stream with 1001-1200 top-level actions open at the same "
-        "time; 8% of the untyped messages carry a user field named action_status. non-trivial = task with >=2 nesting levels or a remote sub-task; distinct by (task shape, order class)")
+        "time; 8% of the untyped messages carry a user field named action_status; one Parser value is continued along two suffixes and compared with "
+        "fresh parsers; the lists Parser.add returns are mutated by the caller; a third of the parse_stream inputs are PMaps. non-trivial = task with >=2 nesting levels or a remote sub-task; distinct by (task shape, order class)")
 ASSUMPTIONS = ["message sets come from well-formed tasks (each position used once)"]
 EXHAUSTIVE_NOTE = "permutations and subsets of every task with <= 6 (quick) / <= 7 (thorough) messages are enumerated completely"
 
